@@ -42,6 +42,15 @@ CLAIMS = {
         "extracted chains by the reference formula.",
    note="Bounds: all leaf sequences <=4..5 (quick) / <=5..7 (thorough) over {hash,metadata} x level alphabets for maximum levels {none,2,3,255}; uniform trees to 33/70 leaves. The block-signer half (masking, metadata, reset==new, signatures) is not yet bound. Defect F-C16-1 fixed.",
    technique="TLC model checking of the builder state machine + replay of all TLC behaviours into KSI_TreeBuilder with hashlib-concretised terms"),
+ "C15": dict(level="model_checking", design_ref="DESIGN.md 4/C15",
+   text="HaService.tla models the HA bookkeeping (expected answers per request, first response wins, stored error vs error notices, failure only when "
+        "nothing more is expected) with the sub-services abstracted by their C13 contract; TLC checks ExactlyOnce, ErrorOnlyWhenAllFailed, FirstValidWins, "
+        "NeverLost, NoticesAreErrors, ExpCounts over all outcome orders for 3 endpoints x 2 requests. HaConfig.tla states the field-wise consolidation rules and "
+        "TLC proves Consolidate(seq) = Reference(set) for every sequence within the bound (order independence). Binding: the real HA service over real TCP "
+        "sub-services on per-endpoint scripted sockets; the sub-service calls made inside the HA run are interposed at link time and the traces validated by "
+        "TLC; every TLC-enumerated configuration sequence is pushed by scripted endpoints and the consolidated configuration compared after each push.",
+   note="Bounds: MC 3 endpoints x 2 requests (1.8e5 states); configs: all sequences <=2 (quick) / <=3 (thorough) per field over boundary alphabets; traces: 75/900 schedules on 1-3 endpoints. Calendar first/last time consolidation is model-checked but bound only through aggregator fields (maxlevel, period, maxreq). Defect F-C15-1 fixed.",
+   technique="TLC model checking + TLC trace validation with link-time interposed sub-service calls + replay of TLC-enumerated configuration sequences"),
 }
 for e in ENGINES:
     e["serves_properties"] = sorted(CLAIMS)
